@@ -674,6 +674,14 @@ func run(c *hl.Ctx) {
 	if c.Expired() {
 		return
 	}
+	// the read-limit and cut families are small as well: before the depth-first part, which is the only one a budget may cut
+	for _, cf := range []cfg{{Server: true}, {Server: false}} {
+		h.limits(cf)
+		h.cuts(cf)
+	}
+	if c.Expired() {
+		return
+	}
 	for _, cf := range []cfg{{Server: true}, {Server: false}, {Server: true, Compression: true}, {Server: false, Compression: true}} {
 		a := alphabet(cf)
 		c.Info(fmt.Sprintf("alphabet_server=%v_compression=%v", cf.Server, cf.Compression), len(a))
@@ -685,10 +693,6 @@ func run(c *hl.Ctx) {
 		if c.Expired() {
 			return
 		}
-	}
-	for _, cf := range []cfg{{Server: true}, {Server: false}} {
-		h.limits(cf)
-		h.cuts(cf)
 	}
 	if c.Shard == 0 {
 		c.Sample(map[string]interface{}{"part": "seq", "frames": "op2/len:1 op9F/len:125 op0F/len:0", "meaning": "fragment, ping in between, final empty continuation"})
